@@ -134,6 +134,7 @@ EDITS = {
     'touch-options': lambda s: _os.utime(s + '/options.bfg'),
     'edit-options': lambda s: _append(s + '/options.bfg', "argument('other', default='y')\n"),
     'edit-sub': lambda s: _append(s + '/sub/build.bfg', "copy_file('t.txt')\n"),
+    'edit-sub-options': lambda s: _write(s + '/sub/options.bfg', "argument('subname', default='changed')\n"),
     'add-match-d1': lambda s: _write(s + '/d1/b.txt', ''),
     'add-nomatch-d1': lambda s: _write(s + '/d1/b.md', ''),
     'add-match-deep': lambda s: _write(s + '/d2/deep/z.dat', ''),       # (re-creates d2/deep after a rename)
@@ -192,8 +193,9 @@ class RegenHistory(Bounded):
         try:
             src, b = top + '/src', top + '/b'
             _write(src + '/build.bfg', "project('p')\na = find_files('d1/*.txt', extra='*.md')\nb = find_files('d2/**/*.dat')\n"
-                                      "submodule('sub')\nfor f in a + b:\n    copy_file(f)\n")
-            _write(src + '/options.bfg', "argument('name', default='x')\n")
+                                      "submodule('sub')\nfor f in a + b:\n    copy_file(f)\ncommand('say', cmd=['echo', argv.subname])\n")
+            _write(src + '/options.bfg', "argument('name', default='x')\nsubmodule('sub')\n")
+            _write(src + '/sub/options.bfg', "argument('subname', default='y')\n")
             _write(src + '/sub/build.bfg', "copy_file('s.txt')\n")
             for f in ('sub/s.txt', 'sub/t.txt', 'extra.txt', 'd1/a.txt', 'd1/notes.md', 'd2/x.dat', 'd2/deep/y.dat'):
                 _write(src + '/' + f, f)
